@@ -996,6 +996,9 @@ func (it *c10Interp) assignment(id, dir string) (names []string, accept bool, ok
 		def = a.Config.DefaultExportPolicy
 		names = a.Config.ExportPolicyList
 	}
+	if def == "none" {
+		return nil, false, false // the assignment was deleted: what then applies is not documented
+	}
 	return names, def != "reject-route", true // "default is accept-route"
 }
 
